@@ -30,3 +30,15 @@ add("C04", "model_checking",
     "Seven corpora (active, sealed, overlapping fractions, equal timestamps, document sizes 2..200 B) are served by real stores (storeapi.NewStore) inside worker processes; every list of <=3 (thorough 4) distinct IDs over the present IDs and absent IDs placed at every border of every fraction, with every hint kind, is fetched through Fetcher.FetchDocs and through the streaming GrpcV1.Fetch and compared position by position with the ingested bytes; lists of 1001..2500 IDs exercise the chunk re-sizing at the real constant. Because the defects of this property kill or wedge the process (found: divide by zero in the batch loader, out-of-range in the sealed ID lookup; both repaired by fix: commits), the store runs in a child whose death is attributed to the request and reproduced before it is reported.",
     "Trusted: the bulk encoder of the harness (same layout as the proxy's). MaxFetchSizeBytes is a fixed 4 MiB, so re-sized chunks never drop below the list lengths explored; the 100k-ID end of the quantifier is not enumerated.",
     "DESIGN.md §3 C04", "E3-smallscope")
+
+add("C05", "model_checking",
+    "exhaustive enumeration of set partitions of small corpora into fractions (forms, list orders, iteration widths, limits) and of document-to-shard assignments over in-process stores, vs the single ordered list of refdb",
+    "For every corpus of <=4 (thorough 5) documents with every timestamp pattern (overlapping fraction ranges forced), every set partition into <=3 fractions, every active/sealed mask, every order of the fraction list and FractionsPerIteration 1..3 the real Searcher.SearchDocs must return the refdb top-limit list, total and histogram, with and without total (early-exit path), and the single-fraction aggregation; at proxy level every assignment of documents to 1-2 shards x 1-2 replicas (including a document stored on both shards) is served by real in-process stores through search.Ingestor.Search for every (offset,size), which must page through the one ordered list without gaps or repeats.",
+    "Trusted: refdb; for documents stored on two shards only the listing is compared (what the statement promises). Quick thins two symmetric dimensions at n=4 by rotation (stated in the evidence).",
+    "DESIGN.md §3 C05", "E3-smallscope")
+
+add("C06", "model_checking",
+    "exhaustive enumeration of small corpora x fraction partitions x every merge tree of partial results, 38 aggregation specs in one multi-aggregation request, vs values computed by refdb from the documents",
+    "Every corpus of <=2 documents over group x numeric value x timestamp (n=3 over a reduced alphabet) is split into every partition of <=3 fractions; the per-fraction partial results of one request carrying 38 aggregation specs (count, unique, sum/min/max/avg, three quantile lists, with/without group, with/without time interval) and a histogram are merged in every permutation and parenthesisation and must equal the values computed directly from the documents; a subset is repeated through Ingestor.Search over two in-process shards to cover the store<->proxy conversion. Found and repaired: quantile lists containing only 0/1 answered NaN.",
+    "Trusted: refdb/agg.go including the store API's not-exists conventions (documented there); single-valued group/field tokens and dyadic values only.",
+    "DESIGN.md §3 C06", "E3-smallscope")
